@@ -6,6 +6,7 @@ No reference semantics live here: C05 checks invariants + accessor agreement on 
 purity and in-place equivalence; the per-operation oracles are in the property-specific checks (C06, C08-C13).
 """
 import numpy as np
+from sx.harness import B, ATM, Abort, call, is_sym      # noqa
 
 
 def _half(ids):
@@ -104,3 +105,57 @@ for _ax in ('sample', 'observation'):
         COUNT_OPS[f'subsample:{_ax}:{"replace" if _wr else "noreplace"}'] = {
             'arity': 1, 'inplace': False,
             'fn': (lambda b, t, o, a, ao, inplace, ax=_ax, wr=_wr: t.subsample(2, axis=ax, with_replacement=wr, seed=1))}
+
+
+# ------------------------------------------------------------------------------------------------ tables that come from a reader
+LOAD_ORIGINS = ('from_json', 'parse_biom_table:json', 'from_tsv', 'parse_biom_table:tsv', 'from_hdf5', 'parse_biom_table:hdf5')
+
+
+def atm_json_doc(a, type_='OTU table'):
+    """the BIOM 1.0 document (as a decoded object) describing the abstract table a"""
+    nr, nc = len(a.obs_ids), len(a.samp_ids)
+    return {'id': None, 'format': 'Biological Observation Matrix 1.0.0', 'format_url': 'http://biom-format.org',
+            'type': type_, 'generated_by': 'verif', 'date': '2021-03-04T05:06:07', 'matrix_type': 'sparse',
+            'matrix_element_type': 'float', 'shape': [nr, nc],
+            'data': [[i, j, a.dense[i][j]] for i in range(nr) for j in range(nc) if is_sym(a.dense[i][j]) or a.dense[i][j] != 0],
+            'rows': [{'id': o, 'metadata': (dict(a.obs_md[k]) if a.obs_md else None)} for k, o in enumerate(a.obs_ids)],
+            'columns': [{'id': o, 'metadata': (dict(a.samp_md[k]) if a.samp_md else None)} for k, o in enumerate(a.samp_ids)]}
+
+
+def load_via(origin, t0, a, type_='OTU table'):
+    """(table, error, abstract table): the table a reader hands back for the content of t0 / a -- what `biom convert` then writes.
+    JSON text and TSV sniffing are not the subject here (C02 / C03): the JSON decoder is stubbed to hand over the document."""
+    import datetime
+    import sx.env as env
+    from checks.h5spec import new_store
+    P = env.module('biom.parse')
+    b = B()
+    if origin in ('from_json', 'parse_biom_table:json'):
+        doc = atm_json_doc(a, type_)
+        if origin == 'from_json':
+            t, e = call(lambda: b.Table.from_json(doc))
+        else:
+            class _J:
+                loads = staticmethod(lambda text, **k: doc)
+                load = staticmethod(lambda fh, **k: doc)
+            P.json = _J
+            t, e = call(lambda: P.parse_biom_table('{"the": "document"}'))
+        return t, e, a
+    if origin in ('from_tsv', 'parse_biom_table:tsv'):
+        if a.obs_md is not None or a.samp_md is not None:
+            raise Abort()          # the classic format carries no such metadata (C03 covers what it does carry)
+        lines = t0.to_tsv().split('\n')
+        if origin == 'from_tsv':
+            t, e = call(lambda: b.Table.from_tsv(lines, None, None, lambda x: x))
+        else:
+            class _NJ:      # a classic table starts with '#': the JSON decoder refuses it
+                @staticmethod
+                def loads(text, **k):
+                    raise ValueError("Expecting value: line 1 column 1 (char 0)")
+            P.json = _NJ
+            t, e = call(lambda: P.parse_biom_table(lines))
+        return t, e, ATM(a.obs_ids, a.samp_ids, a.dense, None, None, None)
+    store = new_store()
+    t0.to_hdf5(store, 'first', creation_date=datetime.datetime(2021, 3, 4, 5, 6, 7))
+    t, e = call(lambda: P.parse_biom_table(store) if origin == 'parse_biom_table:hdf5' else b.Table.from_hdf5(store))
+    return t, e, a
